@@ -38,6 +38,11 @@ def run(res, replay=None):
             s = {'n_items': [['a', rng.choice([3, 4])]], 'model': mdl,
                  'pop_sizes': {'a': {'0.0': rng.choice([4.0, 0.25, 16.0]), repr(rng.choice([0.5, 1.0])): rng.choice([2.0, 0.5])}}}
             cases.append({'spec': s, 'c': 2.0 ** rng.choice([-2, 3, 6]), 'regularize_check': False})
+        # small NON-dyadic sizes under the scaled multiple-merger models (time scales N^2 and ~N^(alpha-1) far below 1: a time scale
+        # that is rounded or clipped at some absolute precision breaks the power law only here)
+        for mdl in ({'kind': 'dirac', 'psi': 0.5, 'c': 1.0, 'scale_time': True}, {'kind': 'beta', 'alpha': 1.875, 'scale_time': True}):
+            s = {'n_items': [['a', 3]], 'model': mdl, 'pop_sizes': {'a': {'0.0': rng.choice([0.137, 0.0731, 0.0123])}}}
+            cases.append({'spec': s, 'c': 2.0 ** rng.choice([-3, 2, 7]), 'regularize_check': False})
     if not replay:
         # large time units: sizes near the upper end of the claimed range, changes that touch only migration rates
         for i in range(3 if res.tier == 'quick' else 12):
